@@ -60,6 +60,38 @@ func listExhausted(list string) func(*core.Term) bool {
 	}
 }
 
+// isRefusal: v is the result of a call of a pkg/builder function that answers an error built by logger.Errorf only under a
+// positive look-ahead (hasNotationUnder) on a struct-typed destination, and nil otherwise.
+func (c *Ctx) isRefusal(v ssa.Value) bool {
+	cv, ok := v.(*ssa.Call)
+	if !ok {
+		return false
+	}
+	fn := cv.Call.StaticCallee()
+	if fn == nil || fn.Blocks == nil || pkgOf(fn) == nil || pkgOf(fn).Path() != mod+"/pkg/builder" || fn.Signature.Results().Len() != 1 || fn.Signature.Results().At(0).Type().String() != "error" {
+		return false
+	}
+	nErr, nNil := 0, 0
+	for _, ret := range core.Returns(fn) {
+		t := c.O.Of(ret.Results[0])
+		d := c.ReachOf(ret)
+		switch {
+		case t.Is("const", "nil"):
+			nNil++
+		case t.IsCallTo(fnErrorf):
+			nErr++
+			below := c.M(true, func(x *core.Term) bool { return x.Kind == "call" && strings.HasSuffix(x.Name, "assignmentBuilder).hasNotationUnder") })
+			isStruct := c.M(true, func(x *core.Term) bool { return x.IsCallTo(fnIsStruct) })
+			if !d.Implies(below) || !d.Implies(isStruct) {
+				return false
+			}
+		default:
+			return false
+		}
+	}
+	return nErr >= 1 && nNil >= 1
+}
+
 // C06 — explicit notations honoured as written.
 func C06(c *Ctx) {
 	r := c.R
@@ -172,6 +204,14 @@ func C06(c *Ctx) {
 				n++
 				// result built from the element
 				res := c.O.Of(ret.Results[0])
+				// … or the refusal: the field would be assigned as a whole although a notation names one of its members
+				if res.Is("const", "nil") && len(ret.Results) == 2 && c.isRefusal(ret.Results[1]) {
+					continue
+				}
+				if len(ret.Results) == 2 {
+					refusedFirst := d.Implies(c.M(true, isNilCmp(func(t *core.Term) bool { return t.V != nil && c.isRefusal(t.V) })))
+					r.Check("C06-16", key+":hit:"+l+":no-notation-below", c.InstrPos(ret), refusedFirst, "a field that takes its value from an explicit notation is assigned as a whole without asking whether another notation names one of its members (`:map Backup Profile` with `:skip Profile.Password` copies the password): the refusal helper was not consulted; reach: "+d.Describe(c.O))
+				}
 				ok := res.Contains(elemOf)
 				if !ok {
 					if a := allocOfIface(ret.Results[0]); a != nil {
@@ -187,6 +227,9 @@ func C06(c *Ctx) {
 			r.Check("C06-2", key+":hit-returns:"+l, c.Pos(fn.Pos()), n >= 1, "no return found that is taken on a hit in Options."+l)
 		}
 	}
+
+	r.Rule("C06-16", "explicit notations and nested notations: in the per-field matcher a hit in Converters, NameMapper, TemplatedNameMapper or Literals produces its assignment only if the refusal helper – a function that answers an error exactly when the destination is a struct (possibly behind a pointer) and the look-ahead finds a notation on one of its members – answered nil; otherwise that error is returned (a field assigned as a whole cannot honour `:skip`/`:map`/`:literal` on its members, and ignoring them silently breaks C06)")
+	r.Check("C06-16", "registered", "pkg/builder", true, "")
 
 	// C06-3
 	n3 := 0
